@@ -70,7 +70,7 @@ pub fn digest(sc: &Scenario) -> u64 {
 }
 
 fn viol(seed: u64, sc: &Scenario, class: String, detail: String) -> Violation {
-    let class = if sc.case.has_vardct && !class.starts_with("panic:") { format!("{class}+vardct") } else { class };
+    let class = sc.case.tag(class);
     Violation { property: "C06".into(), check: "c06".into(), class, detail, seed, scenario: serde_json::to_value(sc).unwrap() }
 }
 
@@ -218,6 +218,12 @@ pub fn execute(seed: u64, sc: &Scenario, stats: &mut Stats) -> Result<(), Violat
 
 pub fn minimise(sc: &Scenario, still: &dyn Fn(&Scenario) -> bool) -> Scenario {
     let mut best = sc.clone();
+    let case = shrink_case(&best.case, &|c| {
+        let mut s = best.clone();
+        s.case = c.clone();
+        still(&s)
+    });
+    best.case = case;
     let mut i = 0;
     while i < best.ops.len() {
         let mut c = best.clone();
